@@ -65,14 +65,8 @@ def r1_dtype_table(repo=None):
     for bo in "<>|=":
         for kind in "iufdcbSV":
             for size in (1, 2, 4, 8, 16):
-                ret = ceval.run(fn, {pb: ord(bo), pk: ord(kind), ps: size})
-                name = None
-                if ret is not None and ret.children:
-                    m = re.search(r"H5T_[A-Z0-9_]+", ret.nsrc)
-                    name = m.group(0) if m else None
-                    if name is None and ret.children[0].intval() is None and "(-1)" not in ret.nsrc.replace(" ", "") \
-                            and not re.search(r"[A-Z_]{4,}", ret.nsrc):
-                        raise AnalysisError("get_hdf5_data_type: unrecognised return value %s" % ret.nsrc)
+                value, ret = ceval.returned(fn, {pb: ord(bo), pk: ord(kind), ps: size}, tu)
+                name = value if isinstance(value, str) else None
                 table[(bo, kind, size)] = (name, ret)
     seen_rows = set()
     for (bo, kind, size), (name, ret) in sorted(table.items()):
@@ -184,14 +178,24 @@ def r2_name_format_agreement(repo=None, rid="C01.R2"):
     final_fmt = bfmt[pos:]
     # bounded millisecond directive: argument is `x % 1000`
     bounded = {}
-    for i, a in enumerate(bcall.args[3:]):
-        v = a.path()
-        if v:
+    def _mod_digits(e, depth=0):
+        """number of decimal digits that bound `x % 10**k` (the argument itself, or the single definition of the variable)"""
+        e = e.strip(casts=True)
+        if e.kind == "BinaryOperator" and e.opcode == "%" and e.children[1].intval() in (10, 100, 1000, 10000):
+            return len(str(e.children[1].intval() - 1))
+        v = e.path()
+        if v and depth < 2:
             defs = [rhs for p, n, rhs, k in clib.stores(fn) if p == v and rhs is not None]
+            for d in fn.find("VarDecl"):
+                if d.name == v and d.children:
+                    defs.append(d.children[-1])
             if len(defs) == 1:
-                e = defs[0].strip(casts=True)
-                if e.kind == "BinaryOperator" and e.opcode == "%" and e.children[1].intval() == 1000:
-                    bounded[i] = 3
+                return _mod_digits(defs[0], depth + 1)
+        return None
+    for i, a in enumerate(bcall.args[3:]):
+        k = _mod_digits(a)
+        if k:
+            bounded[i] = k
     w_re, _ = rx.printf_to_regex(final_fmt, bounded)
     # sub-directory: struct tm field ranges bound every directive (year 4 digits under the property's date bound)
     sub_bounded = {i: w for i, w in enumerate([4, 2, 2, 2, 2, 2])}
